@@ -402,7 +402,12 @@ impl GitignoreBuilder {
                     break;
                 }
             };
-            if let Err(err) = self.add_line(Some(path.to_path_buf()), &line) {
+            // Like git, skip a UTF-8 byte order mark at the start of the file.
+            let line = match line.strip_prefix('\u{FEFF}') {
+                Some(rest) if i == 0 => rest,
+                _ => line.as_str(),
+            };
+            if let Err(err) = self.add_line(Some(path.to_path_buf()), line) {
                 errs.push(err.tagged(path, lineno));
             }
         }
